@@ -206,4 +206,27 @@ real meaning to (serveMetrics reads its database from the configuration, not fro
 theorem flowSrcsUnderstood_expected : dbFlows.all (fun f => f.handler == "serveMetrics" ||
     ((OG.C19.authzEnd f).all (·.src.understood) && (OG.C19.execEnd f).all (·.src.understood))) = true := by decide +kernel
 
+/-! ## the other listeners and the password cache (ogfacts c19wide.go) -/
+
+/-- lib/httpserver.Authenticate: one arm for the password methods, a `default:` arm that reports
+the error *and returns* (model: `authenticatePlain`; before the repair: unguarded=1). -/
+theorem plainAuthArms_expected : plainAuthArms = [
+  ("httpd.UserAuthentication", "errors=2 unguarded=0"),
+  ("default", "errors=1 unguarded=0")
+] := by rfl
+
+theorem plainAuthDefaultFallsThrough_expected : plainAuthDefaultFallsThrough = false := by rfl
+
+theorem fingerprint_plainAuthenticate_expected : fingerprint_plainAuthenticate = "98fea19bddc57147" := by rfl
+
+/-- both handlers wrap with httpserver.Authenticate under their own auth-enabled switch. -/
+theorem src_meta_WrapHandler_expected : src_meta_WrapHandler = "{ return httpserver.Authenticate(http.HandlerFunc(func(w http.ResponseWriter, r *http.Request) { l := httpd.NewResponseLogger(w) hf.ServeHTTP(l, r) }), h.client, h.config.AuthEnabled) }" := by rfl
+theorem src_store_WrapHandler_expected : src_store_WrapHandler = "{ return httpserver.Authenticate(http.HandlerFunc(func(w http.ResponseWriter, r *http.Request) { l := httpd.NewResponseLogger(w) hf.ServeHTTP(l, r) }), h.metaClient, h.config.OpsMonitor.AuthEnabled) }" := by rfl
+
+/-- Auth.authenticate: cache first (entry must have been made against the user's current hash), then the stored hash; success is cached (model: `authCached`). -/
+theorem authCacheChecksBase_expected : authCacheChecksBase = true := by rfl
+theorem src_Auth_authenticate_expected : src_Auth_authenticate = "{ pwd := util.Str2bytes(password) if a.cache.CompareWithBase(user.Name, user.Hash, pwd) { return nil } if err := a.CompareHashAndPlainPwd(user.Hash, password); err != nil { return meta.ErrAuthenticate } a.cache.Create(user.Name, user.Hash, pwd) return nil }" := by rfl
+theorem src_AuthCache_CompareWithBase_expected : src_AuthCache_CompareWithBase = "{ ac.mu.RLock() cache, ok := ac.cache[user] ac.mu.RUnlock() return ok && cache.base == base && cache.Compare(pwd) }" := by rfl
+theorem src_AuthCache_CleanIfNeeded_expected : src_AuthCache_CleanIfNeeded = "{ ac.mu.Lock() defer ac.mu.Unlock() for name := range users { cache, ok := ac.cache[name] if ok && cache.base != users[name] { delete(ac.cache, name) } } for name := range ac.cache { if _, ok := users[name]; !ok { delete(ac.cache, name) } } }" := by rfl
+
 end OG.C19.Facts
